@@ -1,17 +1,17 @@
+\* design mutant: lossy casts are wrapped silently; ExactArgs must be violated
 SPECIFICATION Spec
 CONSTANTS
-  Args <- ArrayArgs
+  Args <- ArrayArgsSmall
   CanonOf <- ArrayCanon
   PyOf <- ArrayPy
   KeyMode = "exact"
-  Lossy = "reject"
+  Lossy = "wrap"
   WrapOf <- ArrayWrap
-  MaxOps = 8
+  MaxOps = 4
   MaxPickles = 1
   Label = "array"
 INVARIANT UniqueLive
 INVARIANT ExactArgs
 INVARIANT SameWhileAlive
 INVARIANT TableSound
-CONSTRAINT EmitBehaviour
 CHECK_DEADLOCK FALSE
